@@ -142,7 +142,7 @@ func (sc *scenario) build(prop string) (*mc.Scenario, error) {
 		w.Atomic = false
 		return w
 	}
-	return &mc.Scenario{Name: sc.Name, Build: build, MaxPreempt: sc.Preempt, MaxCrashes: sc.Crashes, MaxFaults: sc.Faults, GlobalsHash: globalsHash}, nil
+	return &mc.Scenario{Name: sc.Name, Build: build, MaxPreempt: sc.Preempt, MaxCrashes: sc.Crashes, MaxFaults: sc.Faults, GlobalsHash: globalsHash, DeadlockProp: prop}, nil
 }
 
 func handle(p *mc.Proc) *reftable.Stack {
